@@ -125,6 +125,19 @@ def build(seed: int):
     add(("marker_outside_arrange", "filter"), ["TypeError"], dict(id=oid, op="filter", src=tid, preds=[{"fn": "greater_than", "args": [{"fn": "ascending", "args": [a]}, {"lit": 1}]}]))
     add(("marker_outside_arrange", "summarize"), ["TypeError"], dict(id=oid, op="summarize", src=tid, cols=[["zz", {"fn": "sum", "args": [{"fn": "nulls_first", "args": [a]}]}]]))
     add(("marker_outside_arrange", "partition_by"), ["TypeError"], dict(id=oid, op="mutate", src=tid, cols=[["zz", {"fn": "sum", "args": [good], "partition_by": [{"fn": "descending", "args": [a]}]}]]))
+    # … at any depth below the root: two and three operators deep, inside a case branch, a cast, an arrange key, an arrange= argument
+    mk = {"fn": rng.choice(["descending", "ascending", "nulls_first", "nulls_last"]), "args": [a]}
+    deep2 = {"fn": "mul", "args": [{"fn": "add", "args": [mk, {"lit": 1}]}, {"lit": 2}]}
+    deep3 = {"fn": "sub", "args": [{"lit": 0}, {"fn": "mul", "args": [{"fn": "add", "args": [{"lit": 1}, mk]}, {"lit": 2}]}]}
+    add(("marker_outside_arrange", "mutate_depth2"), ["TypeError"], dict(id=oid, op="mutate", src=tid, cols=[["zz", deep2]]))
+    add(("marker_outside_arrange", "mutate_depth3"), ["TypeError"], dict(id=oid, op="mutate", src=tid, cols=[["zz", deep3]]))
+    add(("marker_outside_arrange", "filter_depth2"), ["TypeError"], dict(id=oid, op="filter", src=tid, preds=[{"fn": "greater_than", "args": [deep2, {"lit": 1}]}]))
+    add(("marker_outside_arrange", "case_branch_depth2"), ["TypeError"],
+        dict(id=oid, op="mutate", src=tid, cols=[["zz", {"case": [[{"fn": "is_null", "args": [a]}, {"fn": "add", "args": [mk, {"lit": 1}]}]], "default": {"lit": 0}}]]))
+    add(("marker_outside_arrange", "arrange_key_depth2"), ["TypeError"], dict(id=oid, op="arrange", src=tid, by=[deep2]))
+    add(("marker_outside_arrange", "arrange_kwarg_depth2"), ["TypeError"],
+        dict(id=oid, op="mutate", src=tid, cols=[["zz", {"fn": "shift", "args": [a, {"lit": 1}, {"lit": None}], "arrange": [deep2]}]]))
+    add(("marker_outside_arrange", "summarize_depth2"), ["TypeError"], dict(id=oid, op="summarize", src=tid, cols=[["zz", {"fn": "sum", "args": [deep2]}]]))
 
     rule, exp, st = cases[seed % len(cases)] if False else rng.choice(cases)
     extra = st if isinstance(st, list) else [st]
